@@ -367,3 +367,23 @@ def run_thorough(ctx):
                 d, "operator" if kind == "binary" else "expression", limit + 1, S0, d, per, need / 2**20, stack / 2**20, "" if verdict(need) is not None else " (inside the +-25 %% toolchain band: not decided)"), None)
             need3 = 300 * (S0 + d * per)
             ctx.inst("C18.R3", "depth300#%s:d=%d" % (kind, d), verdict(need3), "300 nested calls with %d nested %s level(s) per body retain at least %.1f MiB; stack %.1f MiB" % (d, "operator" if kind == "binary" else "expression", need3 / 2**20, stack / 2**20), None)
+
+
+def read_limit(core, crates):
+    """the constant N of the one `call_depth > N` test in FunctionDef::call (None if it is not of that form)"""
+    fc = M.Fn(core.mir_fn(FCALL), FCALL)
+    dparam = depth_param_index(crates, FCALL)
+    if dparam is None:
+        return None
+    found = []
+    for b in fc.blocks:
+        for s_ in b["s"]:
+            if s_["k"] == "assign" and s_["rv"]["k"] == "binop" and s_["rv"]["op"] in ("Gt", "Ge") and s_["rv"]["aty"] == "usize":
+                a = depth_expr(fc, s_["rv"]["a"], dparam)
+                c = s_["rv"]["b"]
+                if a == ("param", 0) and "const" in c:
+                    m = re.match(r"(?:const )?(\d+)_usize", c["const"])
+                    val = int(c["int"]) if "int" in c else (int(m.group(1)) if m else None)
+                    if val is not None:
+                        found.append(val + (0 if s_["rv"]["op"] == "Gt" else -1))
+    return found[0] if len(found) == 1 else None
